@@ -8,7 +8,7 @@ Every theorem quantifies over all graphs (any number of nodes, statements, regis
 edge/catch-edge relation incl. loops, self-loops, unreachable nodes) that satisfy the decidable
 well-formedness predicate `WF` (edge tables cover the nodes; targets, entry, exit are nodes).
 -/
-import AgVerif.Proof.ReachDefUD
+import AgVerif.Proof.ReachDefEntry
 namespace AgVerif.C20
 open AgVerif.ReachDef AgVerif.Spec.ReachDef
 
@@ -103,6 +103,45 @@ theorem du_exact (g : Prog) (hwf : WF g = true) (x : Reg) (u d : Int) :
     u ∈ dictGet (buildDefUse g).2 (x, d) ↔ Reaches g d x u := by
   rw [du_inverse, ud_exact g hwf]
 
+/-- Interpretation made explicit: `mfp_eq_mop`/`ud_exact` let a walk start at the node holding the
+    definition even when that node cannot be reached from the entry (a definition in dead code "reaches"
+    the nodes below it; this is what the code computes).  Sharper form: the definitions in `R[v]` whose
+    node is reachable from the entry (and the parameters) are exactly the definitions that are the last
+    definition of their register on some path dummy entry → entry → … → `v`. -/
+theorem reach_def_reachable (g : Prog) (hwf : WF g = true) (v : Nat) (hv : v < nOrig g) (d : Int) :
+    (∃ x, ReachesFromEntry g d x v) ↔
+      d ∈ (analysis g).R v ∧ (d < 0 ∨ ∃ m x, DefinesAt g m d x ∧ Reachable g m) := by
+  constructor
+  · rintro ⟨x, hr⟩
+    refine ⟨(mfp_eq_mop g hwf v hv d).2 ⟨x, reachesFromEntry_weaken hr⟩, ?_⟩
+    obtain ⟨_, _, ⟨m, hm, hl, _⟩ | ⟨⟨k, _, hk⟩, _⟩⟩ := hr
+    · exact Or.inr ⟨m, x, hl.1, hm⟩
+    · exact Or.inl (by omega)
+  · rintro ⟨hd, hsrc⟩
+    obtain ⟨x, mids, hc, h⟩ := (mfp_eq_mop g hwf v hv d).1 hd
+    refine ⟨x, mids, hc, ?_⟩
+    rcases h with ⟨m, hl, hw⟩ | h
+    · rcases hsrc with hneg | ⟨m', x', hdef, hreach⟩
+      · have := definesAt_nonneg hl.1; omega
+      · have := definesAt_node_unique hl.1 hdef
+        subst this
+        exact Or.inl ⟨m, hreach, hl, hw⟩
+    · exact Or.inr h
+
+/-- On a rooted graph (every node reachable from the entry — what `graph.construct` builds by a search from
+    the start block) the computed sets are exactly the meet over paths from the entry. -/
+theorem reach_def_rooted (g : Prog) (hwf : WF g = true) (hroot : ∀ m, m < nOrig g → Reachable g m)
+    (v : Nat) (hv : v < nOrig g) (d : Int) :
+    d ∈ (analysis g).R v ↔ ∃ x, ReachesFromEntry g d x v := by
+  rw [reach_def_reachable g hwf v hv d]
+  constructor
+  · intro hd
+    refine ⟨hd, ?_⟩
+    obtain ⟨x, _, _, ⟨m, hl, _⟩ | ⟨⟨k, _, hk⟩, _⟩⟩ := (mfp_eq_mop g hwf v hv d).1 hd
+    · exact Or.inr ⟨m, x, hl.1, hroot m (definesAt_lt hl.1)⟩
+    · exact Or.inl (by omega)
+  · exact fun h => h.1
+
 /-! ### non-vacuity: a loop with a catch edge, a parameter, an unreachable node -/
 
 /-- node 0 (unreachable): `r3 := …`; node 1 (entry): `r0 := f(r1); r2 := f(r0)`; node 2 (self-loop):
@@ -122,6 +161,31 @@ example : Reaches ex 1 0 4 ∧ Reaches ex 3 0 4 :=
 /-- the parameter r1 reaches statement 4; statement 2's definition of r2 does not reach a use of r0 -/
 example : Reaches ex (-1) 1 4 ∧ ¬ Reaches ex 2 0 4 :=
   ⟨(ud_exact ex (by decide) 1 4 (-1)).1 (by decide), fun h => absurd ((ud_exact ex (by decide) 0 4 2).2 h) (by decide)⟩
+/-- the two notions differ on `ex`: statement 0 (in the unreachable node 0, which has an edge to node 3) is in
+    `R[3]` and reaches node 3 in the sense of `ReachesEntry`, but on no path from the entry -/
+example : (0 : Int) ∈ (analysis ex).R 3 ∧ ¬ ∃ x, ReachesFromEntry ex 0 x 3 := by
+  refine ⟨by decide, ?_⟩
+  intro h
+  obtain ⟨_, hsrc⟩ := (reach_def_reachable ex (by decide) 3 (by decide) 0).1 h
+  rcases hsrc with h | ⟨m, x, hdef, hreach⟩
+  · omega
+  · have hm : m = 0 := by
+      have h0 : DefinesAt ex 0 0 3 := ⟨⟨some 3, []⟩, ⟨[⟨some 3, []⟩], 0, rfl, rfl, rfl⟩, rfl⟩
+      exact definesAt_node_unique hdef h0
+    subst hm
+    rcases hreach with h | ⟨mids, hw⟩
+    · exact absurd h (by decide)
+    · obtain ⟨p, hp⟩ := walk_last_edge hw
+      have : ∀ q, ¬ Edge ex q 0 := by
+        intro q hq
+        match q with
+        | 0 | 1 | 2 | 3 => revert hq; unfold Edge ex; simp
+        | q + 4 => revert hq; unfold Edge ex; simp
+      exact this p hp
+/-- a definition in a reachable node: statement 3 reaches node 3 on a path from the entry -/
+example : ∃ x, ReachesFromEntry ex 3 x 3 :=
+  (reach_def_reachable ex (by decide) 3 (by decide) 3).2
+    ⟨by decide, Or.inr ⟨2, 0, ⟨⟨some 0, [0, 2]⟩, ⟨[⟨some 0, [0, 2]⟩], 0, rfl, rfl, rfl⟩, rfl⟩, Or.inr ⟨[], Or.inl ⟨[2], rfl, by simp⟩⟩⟩⟩
 /-- the path set is a pre-solution for a concrete graph (hypothesis of `run_least` is satisfiable) -/
 example : PreSol ex (SRp ex) (SAp ex) := paths_presol (by decide)
 
